@@ -217,7 +217,7 @@ func checkC12WS(c *Ctx, sw *ScopeWS, tag string) {
 				cls = "var:global-via-_G"
 				c.Count("global_via_G_positions", 1)
 			}
-			if o := f.Bind.ByOff[t.Off]; o != nil && o.Decl == nil && len(sw.GlobalDefs[t.Val]) > 1 {
+			if o := f.Bind.ByOff[t.Off]; o != nil && o.Decl == nil && len(sw.GlobalDefs[t.Val]) > 1 && cls != "var:resolver-trigger-class" {
 				cls = "var:global-multi-def"
 			}
 			dp := def(uri, p)
